@@ -1,4 +1,195 @@
-import Geo.JoinMeet
+/-
+  C01 — join and meet return exactly the span / the intersection of their arguments.
+  All statements are about the einsum calls that the library really issues (generated file
+  Geo/Gen/Diagrams.lean, translator B); `none` = scenario not regenerated (then the property is carried
+  by the correspondence only and the evidence says so).
+-/
+import Geo.Gen.Diagrams
+import Geo.Proofs.Lemmas
 namespace Geo
-theorem C01_placeholder : (1 : Nat) = 1 := rfl
+open Spec
+
+variable {K : Type} [CommRing K]
+
+/-! ## T01.1 / T01.2  plane: two points, two lines -/
+
+/-- the join of two points of the plane is incident with both -/
+theorem T01_1_join_P2P2_incident (p q : Nat → K) :
+    match Gen.join_P2P2 with
+    | none => True
+    | some cs =>
+      let l := fun i => lastResult cs [vec p, vec q] [] [i]
+      dot 3 l p = 0 ∧ dot 3 l q = 0 := by
+  traced_simp [Gen.join_P2P2]
+  constructor <;> ring
+
+/-- … it is ± the cross product, and swapping the arguments only changes the sign -/
+theorem T01_1_join_P2P2_cross (p q : Nat → K) :
+    match Gen.join_P2P2 with
+    | none => True
+    | some cs =>
+      ((∀ i, i < 3 → lastResult cs [vec p, vec q] [] [i] = cross p q i) ∨
+       (∀ i, i < 3 → lastResult cs [vec p, vec q] [] [i] = - cross p q i)) ∧
+      (∀ i, i < 3 → lastResult cs [vec q, vec p] [] [i] = - lastResult cs [vec p, vec q] [] [i]) := by
+  simp only [Gen.join_P2P2]
+  refine ⟨?_, ?_⟩
+  · first
+    | (left; intro i hi; interval_cases i <;> traced_simp [cross] <;> ring1)
+    | (right; intro i hi; interval_cases i <;> traced_simp [cross] <;> ring1)
+  · intro i hi; interval_cases i <;> traced_simp [] <;> ring
+
+/-- the meet of two lines of the plane lies on both (dual statement) -/
+theorem T01_2_meet_L2L2_incident (l m : Nat → K) :
+    match Gen.meet_L2L2 with
+    | none => True
+    | some cs =>
+      let x := fun i => lastResult cs [vec l, vec m] [] [i]
+      dot 3 l x = 0 ∧ dot 3 m x = 0 := by
+  traced_simp [Gen.meet_L2L2]
+  constructor <;> ring
+
+/-- uniqueness in the plane: a line through p and q is proportional to p × q (all 2×2 minors vanish) -/
+theorem T01_8_unique_P2 (p q l : Nat → K) (hp : dot 3 l p = 0) (hq : dot 3 l q = 0) :
+    ∀ i j, i < 3 → j < 3 → l i * cross p q j - l j * cross p q i = 0 := by
+  simp [dot, sumRange] at hp hq
+  intro i j hi hj
+  interval_cases i <;> interval_cases j <;> simp [cross] <;>
+    first
+    | ring1
+    | linear_combination (q 0) * hp - (p 0) * hq
+    | linear_combination (q 1) * hp - (p 1) * hq
+    | linear_combination (q 2) * hp - (p 2) * hq
+    | linear_combination (-(q 0)) * hp + (p 0) * hq
+    | linear_combination (-(q 1)) * hp + (p 1) * hq
+    | linear_combination (-(q 2)) * hp + (p 2) * hq
+
+/-! ## T01.3 – T01.6  space: ε-contractions -/
+
+/-- three points: the plane is incident with each of them -/
+theorem T01_3_join_P3P3P3_incident (p q r : Nat → K) :
+    match Gen.join_P3P3P3 with
+    | none => True
+    | some cs =>
+      let e := fun i => lastResult cs [vec p, vec q, vec r] [] [i]
+      dot 4 e p = 0 ∧ dot 4 e q = 0 ∧ dot 4 e r = 0 := by
+  traced_simp [Gen.join_P3P3P3]
+  refine ⟨?_, ?_, ?_⟩ <;> ring
+
+/-- … and permuting the arguments only changes the sign (so not the projective class) -/
+theorem T01_3_join_P3P3P3_antisymm (p q r : Nat → K) :
+    match Gen.join_P3P3P3 with
+    | none => True
+    | some cs => ∀ i, i < 4 →
+      lastResult cs [vec q, vec p, vec r] [] [i] = - lastResult cs [vec p, vec q, vec r] [] [i] ∧
+      lastResult cs [vec p, vec r, vec q] [] [i] = - lastResult cs [vec p, vec q, vec r] [] [i] := by
+  simp only [Gen.join_P3P3P3]
+  intro i hi
+  interval_cases i <;> traced_simp [] <;> constructor <;> ring
+
+/-- three planes: the point lies on each of them -/
+theorem T01_5_meet_EEE_incident (a b c : Nat → K) :
+    match Gen.meet_EEE with
+    | none => True
+    | some cs =>
+      let x := fun i => lastResult cs [vec a, vec b, vec c] [] [i]
+      dot 4 a x = 0 ∧ dot 4 b x = 0 ∧ dot 4 c x = 0 := by
+  traced_simp [Gen.meet_EEE]
+  refine ⟨?_, ?_, ?_⟩ <;> ring
+
+/-- two points of space: the line `L^{kl}` annihilates both points (`L^{kl} p_k = 0`): they lie on it -/
+theorem T01_4_join_P3P3_incident (p q : Nat → K) :
+    match Gen.join_P3P3 with
+    | none => True
+    | some cs => ∀ l, l < 4 →
+      sumRange 4 (fun k => lastResult cs [vec p, vec q] [] [k, l] * p k) = 0 ∧
+      sumRange 4 (fun k => lastResult cs [vec p, vec q] [] [k, l] * q k) = 0 := by
+  simp only [Gen.join_P3P3]
+  intro l hl
+  interval_cases l <;> traced_simp [] <;> constructor <;> ring
+
+/-- closed form of the traced two-point join: the Plücker matrix (up to one global sign) -/
+theorem T01_4_join_P3P3_plucker (p q : Nat → K) :
+    match Gen.join_P3P3 with
+    | none => True
+    | some cs =>
+      (∀ k l, k < 4 → l < 4 → lastResult cs [vec p, vec q] [] [k, l] = plucker p q k l) ∨
+      (∀ k l, k < 4 → l < 4 → lastResult cs [vec p, vec q] [] [k, l] = - plucker p q k l) := by
+  simp only [Gen.join_P3P3]
+  first
+  | (left; intro k l hk hl; interval_cases k <;> interval_cases l <;> traced_simp [plucker] <;> ring1)
+  | (right; intro k l hk hl; interval_cases k <;> interval_cases l <;> traced_simp [plucker] <;> ring1)
+
+/-- the same with the sign made explicit: `L = s • plucker`, `s = ±1` -/
+theorem join_P3P3_signed (p q : Nat → K) :
+    match Gen.join_P3P3 with
+    | none => True
+    | some cs => ∃ s : K, (s = 1 ∨ s = -1) ∧
+        ∀ k l, k < 4 → l < 4 → lastResult cs [vec p, vec q] [] [k, l] = s * plucker p q k l := by
+  have h := T01_4_join_P3P3_plucker p q
+  revert h
+  cases Gen.join_P3P3 with
+  | none => simp
+  | some cs =>
+    simp only
+    rintro (h | h)
+    · exact ⟨1, Or.inl rfl, fun k l hk hl => by rw [h k l hk hl]; ring⟩
+    · exact ⟨-1, Or.inr rfl, fun k l hk hl => by rw [h k l hk hl]; ring⟩
+
+set_option maxHeartbeats 3000000 in
+/-- line + point (both argument orders) agrees, up to sign, with the three-point join:
+    `join(L, r) = ± join(p,q,r)` whenever `L = ± plucker p q` — in particular for `L = join(p,q)` -/
+theorem T01_4_join_L3P3_eq_three (p q r : Nat → K) (L : List Nat → K) (s : K)
+    (hL : ∀ k l, k < 4 → l < 4 → L [k, l] = s * plucker p q k l) :
+    match Gen.join_L3P3, Gen.join_P3L3, Gen.join_P3P3P3 with
+    | some clp, some cpl, some c3 =>
+      ((∀ i, i < 4 → lastResult clp [L, vec r] [] [i] = s * lastResult c3 [vec p, vec q, vec r] [] [i]) ∨
+       (∀ i, i < 4 → lastResult clp [L, vec r] [] [i] = - (s * lastResult c3 [vec p, vec q, vec r] [] [i]))) ∧
+      ((∀ i, i < 4 → lastResult cpl [vec r, L] [] [i] = s * lastResult c3 [vec p, vec q, vec r] [] [i]) ∨
+       (∀ i, i < 4 → lastResult cpl [vec r, L] [] [i] = - (s * lastResult c3 [vec p, vec q, vec r] [] [i])))
+    | _, _, _ => True := by
+  simp only [Gen.join_L3P3, Gen.join_P3L3, Gen.join_P3P3P3]
+  constructor <;>
+  first
+  | (left; intro i hi; interval_cases i <;> traced_simp [hL, plucker] <;> ring1)
+  | (right; intro i hi; interval_cases i <;> traced_simp [hL, plucker] <;> ring1)
+
+set_option maxHeartbeats 3000000 in
+/-- line ∩ plane (both orders): for `L = s • plucker p q` the result is `±s·((π·q) p − (π·p) q)`:
+    a point of the line that lies on the plane -/
+theorem T01_6_meet_L3E (p q e : Nat → K) (L : List Nat → K) (s : K)
+    (hL : ∀ k l, k < 4 → l < 4 → L [k, l] = s * plucker p q k l) :
+    match Gen.meet_L3E, Gen.meet_EL3 with
+    | some cle, some cel =>
+      ((∀ i, i < 4 → lastResult cle [L, vec e] [] [i] = 2 * s * (dot 4 e q * p i - dot 4 e p * q i)) ∨
+       (∀ i, i < 4 → lastResult cle [L, vec e] [] [i] = -2 * s * (dot 4 e q * p i - dot 4 e p * q i))) ∧
+      ((∀ i, i < 4 → lastResult cel [vec e, L] [] [i] = 2 * s * (dot 4 e q * p i - dot 4 e p * q i)) ∨
+       (∀ i, i < 4 → lastResult cel [vec e, L] [] [i] = -2 * s * (dot 4 e q * p i - dot 4 e p * q i)))
+    | _, _ => True := by
+  simp only [Gen.meet_L3E, Gen.meet_EL3]
+  constructor <;>
+  first
+  | (left; intro i hi; interval_cases i <;> traced_simp [hL, plucker] <;> ring1)
+  | (right; intro i hi; interval_cases i <;> traced_simp [hL, plucker] <;> ring1)
+
+/-- the point `(π·q) p − (π·p) q` lies on the plane π (so T01_6 gives a point of line and plane) -/
+theorem T01_6_point_on_plane (p q e : Nat → K) :
+    dot 4 e (fun i => dot 4 e q * p i - dot 4 e p * q i) = 0 := by
+  simp [dot, sumRange]; ring
+
+set_option maxHeartbeats 3000000 in
+/-- two planes (the result goes through `contravariant_tensor`): `L^{kl} x_k = ±2((π·x) σ^l − (σ·x) π^l)`;
+    so every point of both planes is annihilated by the line tensor, i.e. lies on the line -/
+theorem T01_5_meet_EE (a b x : Nat → K) :
+    match Gen.meet_EE with
+    | none => True
+    | some cs =>
+      (∀ l, l < 4 → sumRange 4 (fun k => lastResult cs [vec a, vec b] [] [k, l] * x k)
+          = 2 * (dot 4 b x * a l - dot 4 a x * b l)) ∨
+      (∀ l, l < 4 → sumRange 4 (fun k => lastResult cs [vec a, vec b] [] [k, l] * x k)
+          = -2 * (dot 4 b x * a l - dot 4 a x * b l)) := by
+  simp only [Gen.meet_EE]
+  first
+  | (left; intro l hl; interval_cases l <;> traced_simp [] <;> ring1)
+  | (right; intro l hl; interval_cases l <;> traced_simp [] <;> ring1)
+
 end Geo
